@@ -60,7 +60,8 @@ def run(tier):
                        "parser.c compiled without NDEBUG so that %syntax_error reports"]
     ex = exes()
     run_lalr(rep, ex["c02_lalr-plain"])
-    core.run_driver(rep, ex["c02-plain"], tier, "plain", hang=30)
+    core.run_driver(rep, ex["c02-plain"], tier, "plain", hang=10)
+    core.reclassify_self_referential_notes(rep)
     core.confirm_violations(rep, ex)
     return rep.finish()
 
